@@ -5,7 +5,7 @@ import re
 from ..model import AnalysisError, own_nodes, norm_src
 from ..peval import CallV, Ext, Const, DictV, SeqV, FuncV, is_const
 from ..report import RuleResult
-from ..util import key_of, src, call_name, kwarg
+from ..util import key_of, src, call_name, kwarg, bound_arg
 from ..cfg import CFG
 from .. import rx
 
@@ -246,7 +246,10 @@ def rule_fast(ctx):
                 problems.append('`ref` is not built through _build_cel/_build_ref')
         namev = d.get('name')
         if not (isinstance(namev, ast.Call) and call_name(namev) == '_build_id'
-                and [norm_src(a) for a in namev.args] == [refname, 'sheet_id']):
+                and [norm_src(bound_arg(ctx, f, namev, i, nm_) or
+                              ast.Constant(None))
+                     for i, nm_ in enumerate(('ref', 'sheet_id'))] ==
+                [refname, 'sheet_id']):
             problems.append('`name` is not _build_id(ref, sheet_id)')
         if 'c1' in params:
             n1 = d.get('n1')
